@@ -1,6 +1,7 @@
 import RactorModel.Lemmas.RegistryView
 import RactorModel.Lemmas.RegistryConcEv
 import RactorModel.Extracted
+import RactorModel.Lemmas.PidRegistryView
 
 /-!
 # C10 — a name maps to at most one live actor and is released on exit
@@ -455,6 +456,313 @@ example :
 
 end C10
 
+/-!
+# Round 4 — the pid table of the `cluster` build and its lifecycle monitors
+
+Model: `Model/PidRegistry.lean` (one op = one API call on a quiescent system: `register_pid` of a local
+spawn, `new_remote`, the cleanup block `demonitor(self); unregister_pid(self)`, `monitor`, `demonitor`,
+`get_all_pids`, `where_is_pid`); lemmas: `Lemmas/PidRegistry*.lean`. `trace s ops` = every
+`PidLifecycleEvent` sent during the run with its recipient, `dtrace` = those a listener got to handle.
+
+What C10 itself states about the pid table ("the same holds for pid lookup in cluster builds") is
+`pid_get_all_refines`, `pid_where_is_agrees`, `pid_remote_invisible`; the statements about the lifecycle
+*monitors* go beyond the text of C10 (bonus guarantees, labelled `bonus` below).
+-/
+
+namespace C10
+open PidRegistry
+
+/-- `get_all_pids()` is exactly the list of local actors that have not begun to exit — in every
+reachable state, list equality (refinement to the abstract set `liveLocals`), without duplicates. -/
+theorem pid_get_all_refines (ops : List PidRegistry.Op) :
+    PidRegistry.obs (PidRegistry.run PidRegistry.init ops) .getAll
+        = .pids (liveLocals (PidRegistry.run PidRegistry.init ops)) ∧
+    (liveLocals (PidRegistry.run PidRegistry.init ops)).Nodup := by
+  have h := PidRegistry.inv_run PidRegistry.inv_init ops
+  exact ⟨by simp only [PidRegistry.obs, h.pids], liveLocals_nodup h.ids⟩
+
+/-- `where_is_pid(id)` answers `Some` exactly for the live local actors — never for a remote id, never
+for an actor that has begun to exit, never for an id nobody was given. -/
+theorem pid_where_is_agrees (ops : List PidRegistry.Op) (a : Nat) :
+    whereIsPid (PidRegistry.run PidRegistry.init ops) a = true ↔
+      a ∈ liveLocals (PidRegistry.run PidRegistry.init ops) := by
+  have h := PidRegistry.inv_run PidRegistry.inv_init ops
+  have := found_iff h a
+  rw [h.pids] at this
+  rw [← this]
+  simp only [PidRegistry.view, List.mem_filter]
+  constructor
+  · intro hw
+    refine ⟨?_, hw⟩
+    simp only [whereIsPid] at hw
+    split at hw
+    · rename_i x hx; exact (known_iff _ a).mp (getA_known hx)
+    · cases hw
+  · exact fun hw => hw.2
+
+/-- Creating a remote actor (`ActorCell::new_remote`) is invisible: neither table changes, nobody is
+told anything, and both queries answer as before — in ANY state. -/
+theorem pid_remote_invisible (s : PidRegistry.State) (a : Nat) :
+    (PidRegistry.step s (.remote a)).pids = s.pids ∧ (PidRegistry.step s (.remote a)).mons = s.mons ∧
+    events s (.remote a) = [] ∧
+    PidRegistry.obs (PidRegistry.step s (.remote a)) .getAll = PidRegistry.obs s .getAll := by
+  simp only [PidRegistry.step, PidRegistry.obs, events]
+  split <;> simp
+
+/-- The exit of a remote actor leaves the pid table alone and tells nobody (it only drops the remote
+actor's own listener entry). -/
+theorem pid_remote_exit_silent (s : PidRegistry.State) (a : Nat) (x : PidRegistry.Actor)
+    (hx : getA s a = some x) (hr : x.remote = true) :
+    (PidRegistry.step s (.exitBegin a)).pids = s.pids ∧ events s (.exitBegin a) = [] := by
+  simp only [PidRegistry.step, events, hx, hr]
+  constructor
+  · split <;> simp
+  · simp
+
+/-- Nothing is ever reported about a remote id: the subject of every event ever sent, in any run, is a
+local actor (and, ids being unique, no remote actor carries that id). -/
+theorem pid_nothing_for_remote (ops : List PidRegistry.Op) (e : Ev)
+    (he : e ∈ PidRegistry.trace PidRegistry.init ops) :
+    (∃ x ∈ (PidRegistry.run PidRegistry.init ops).actors, x.id = e.who ∧ x.remote = false) ∧
+    ∀ y ∈ (PidRegistry.run PidRegistry.init ops).actors, y.id = e.who → y.remote = false := by
+  have hinv := PidRegistry.inv_run PidRegistry.inv_init ops
+  have hloc : ∃ x ∈ (PidRegistry.run PidRegistry.init ops).actors, x.id = e.who ∧ x.remote = false := by
+    clear hinv
+    generalize PidRegistry.init = s at he ⊢
+    induction ops generalizing s with
+    | nil => cases he
+    | cons op ops ih =>
+      simp only [PidRegistry.trace, List.mem_append] at he
+      rcases he with he | he
+      · obtain ⟨x, hx, hid, hr⟩ := events_local he
+        -- local actors stay (only their phase changes)
+        have keep : ∀ (ops : List PidRegistry.Op) (s : PidRegistry.State),
+            (∃ x ∈ s.actors, x.id = e.who ∧ x.remote = false) →
+            ∃ x ∈ (PidRegistry.run s ops).actors, x.id = e.who ∧ x.remote = false := by
+          intro ops
+          induction ops with
+          | nil => exact fun s h => h
+          | cons op ops ih2 =>
+            intro s ⟨x, hx, hid, hr⟩
+            apply ih2
+            cases op with
+            | spawn b =>
+              simp only [PidRegistry.step]; split
+              · exact ⟨x, hx, hid, hr⟩
+              · exact ⟨x, List.mem_append_left _ hx, hid, hr⟩
+            | remote b =>
+              simp only [PidRegistry.step]; split
+              · exact ⟨x, hx, hid, hr⟩
+              · exact ⟨x, List.mem_append_left _ hx, hid, hr⟩
+            | exitBegin b =>
+              simp only [PidRegistry.step]; split
+              · exact ⟨x, hx, hid, hr⟩
+              · split
+                · exact ⟨x, hx, hid, hr⟩
+                · refine ⟨if x.id = b then { x with phase := 1 } else x, ?_, ?_, ?_⟩
+                  · simp only [setPhase, List.mem_map]; exact ⟨x, hx, rfl⟩
+                  · split <;> exact hid
+                  · split <;> exact hr
+            | exitEnd b =>
+              simp only [PidRegistry.step]; split
+              · exact ⟨x, hx, hid, hr⟩
+              · split
+                · exact ⟨x, hx, hid, hr⟩
+                · refine ⟨if x.id = b then { x with phase := 2 } else x, ?_, ?_, ?_⟩
+                  · simp only [setPhase, List.mem_map]; exact ⟨x, hx, rfl⟩
+                  · split <;> exact hid
+                  · split <;> exact hr
+            | monitor m => simp only [PidRegistry.step]; split <;> exact ⟨x, hx, hid, hr⟩
+            | demonitor m => exact ⟨x, hx, hid, hr⟩
+            | getAll => exact ⟨x, hx, hid, hr⟩
+            | whereIs b => exact ⟨x, hx, hid, hr⟩
+        exact keep ops _ ⟨x, hx, hid, hr⟩
+      · exact ih _ he
+  refine ⟨hloc, ?_⟩
+  obtain ⟨x, hx, hid, hr⟩ := hloc
+  intro y hy hyid
+  have : y = x := unique_of_nodup hinv.ids hy hx (by rw [hyid, hid])
+  subst this; exact hr
+
+/-- (bonus) `Spawn(a)` is reported exactly once to every monitor registered at the instant `a` is
+registered, and to nobody else, ever: in a run from ANY state, the `Spawn(a)` events of the whole run are
+precisely one per entry of the listener list at that instant (which has no duplicates, `pid_monitors_nodup`). -/
+theorem pid_spawn_reported_exactly (s₀ : PidRegistry.State) (pre post : List PidRegistry.Op) (a : Nat)
+    (hf : known (PidRegistry.run s₀ pre) a = false) :
+    (PidRegistry.trace s₀ (pre ++ .spawn a :: post)).filter (fun e => e.spawn && e.who == a)
+      = (PidRegistry.run s₀ pre).mons.map (fun m => ⟨m, true, a⟩) := by
+  rw [trace_append]
+  simp only [PidRegistry.trace, List.filter_append]
+  have h1 : (PidRegistry.trace s₀ pre).filter (fun e => e.spawn && e.who == a) = [] := by
+    rw [List.filter_eq_nil_iff]
+    intro e he hc
+    simp only [Bool.and_eq_true, beq_iff_eq] at hc
+    have := (trace_who s₀ pre e he).1
+    rw [hc.2, hf] at this; cases this
+  have h2 : (events (PidRegistry.run s₀ pre) (.spawn a)).filter (fun e => e.spawn && e.who == a)
+      = (PidRegistry.run s₀ pre).mons.map (fun m => ⟨m, true, a⟩) := by
+    simp only [events, hf, Bool.false_eq_true, ↓reduceIte]
+    rw [List.filter_eq_self]
+    intro e he
+    simp only [List.mem_map] at he
+    obtain ⟨m, _, rfl⟩ := he
+    simp
+  have h3 : (PidRegistry.trace (PidRegistry.step (PidRegistry.run s₀ pre) (.spawn a)) post).filter
+      (fun e => e.spawn && e.who == a) = [] := by
+    rw [List.filter_eq_nil_iff]
+    intro e he hc
+    simp only [Bool.and_eq_true, beq_iff_eq] at hc
+    have hk : known (PidRegistry.step (PidRegistry.run s₀ pre) (.spawn a)) a = true := by
+      rw [known_step]; simp [newId, hf]
+    have := no_spawn_after_known hk post e he hc.2
+    rw [hc.1] at this; cases this
+  rw [h1, h2, h3]; simp
+
+/-- (bonus) `Terminate(a)` is reported exactly once to every monitor registered at the instant `a`'s
+cleanup block runs — except `a` itself, which `set_status` demonitors first — and to nobody else, ever. -/
+theorem pid_terminate_reported_exactly (s₀ : PidRegistry.State) (pre post : List PidRegistry.Op) (a : Nat)
+    (x : PidRegistry.Actor) (hx : getA (PidRegistry.run s₀ pre) a = some x) (hp : x.phase = 0)
+    (hr : x.remote = false) (hin : a ∈ (PidRegistry.run s₀ pre).pids) :
+    (PidRegistry.trace s₀ (pre ++ .exitBegin a :: post)).filter (fun e => !e.spawn && e.who == a)
+      = ((PidRegistry.run s₀ pre).mons.filter (· != a)).map (fun m => ⟨m, false, a⟩) := by
+  rw [trace_append]
+  simp only [PidRegistry.trace, List.filter_append]
+  have h1 : (PidRegistry.trace s₀ pre).filter (fun e => !e.spawn && e.who == a) = [] := by
+    rw [List.filter_eq_nil_iff]
+    intro e he hc
+    simp only [Bool.and_eq_true, Bool.not_eq_true', beq_iff_eq] at hc
+    have := (trace_who s₀ pre e he).2 hc.1
+    rw [hc.2] at this; exact this hin
+  have h2 : (events (PidRegistry.run s₀ pre) (.exitBegin a)).filter (fun e => !e.spawn && e.who == a)
+      = ((PidRegistry.run s₀ pre).mons.filter (· != a)).map (fun m => ⟨m, false, a⟩) := by
+    simp only [events, hx, hp, hr, hin, and_self, ↓reduceIte]
+    rw [List.filter_eq_self]
+    intro e he
+    simp only [List.mem_map] at he
+    obtain ⟨m, _, rfl⟩ := he
+    simp
+  have h3 : (PidRegistry.trace (PidRegistry.step (PidRegistry.run s₀ pre) (.exitBegin a)) post).filter
+      (fun e => !e.spawn && e.who == a) = [] := by
+    rw [List.filter_eq_nil_iff]
+    intro e he hc
+    simp only [Bool.and_eq_true, beq_iff_eq] at hc
+    have hk : known (PidRegistry.step (PidRegistry.run s₀ pre) (.exitBegin a)) a = true :=
+      known_step_mono _ (getA_known hx)
+    have hg : a ∉ (PidRegistry.step (PidRegistry.run s₀ pre) (.exitBegin a)).pids := by
+      simp [PidRegistry.step, hx, hp, hr]
+    exact silent_after_gone hk hg post e he hc.2
+  rw [h1, h2, h3]; simp
+
+/-- (bonus) the same from the initial state, for every live local actor. -/
+theorem pid_terminate_of_live_local (pre post : List PidRegistry.Op) (a : Nat)
+    (hl : a ∈ liveLocals (PidRegistry.run PidRegistry.init pre)) :
+    (PidRegistry.trace PidRegistry.init (pre ++ .exitBegin a :: post)).filter (fun e => !e.spawn && e.who == a)
+      = ((PidRegistry.run PidRegistry.init pre).mons.filter (· != a)).map (fun m => ⟨m, false, a⟩) := by
+  have h := PidRegistry.inv_run PidRegistry.inv_init pre
+  have hk := liveLocals_known hl
+  cases hx : getA (PidRegistry.run PidRegistry.init pre) a with
+  | none => rw [getA_none_known hx] at hk; cases hk
+  | some x =>
+    have := (mem_liveLocals_getA h.ids hx).mp hl
+    exact pid_terminate_reported_exactly _ pre post a x hx this.2 this.1 (by rw [h.pids]; exact hl)
+
+/-- (bonus) Spawn before Terminate: once `Terminate(a)` has been sent to anybody, `Spawn(a)` is never
+sent to anybody — for every run from every state. -/
+theorem pid_spawn_before_terminate (s₀ : PidRegistry.State) (ops : List PidRegistry.Op) (l₁ l₂ : List Ev)
+    (e : Ev) (hsplit : PidRegistry.trace s₀ ops = l₁ ++ e :: l₂) (he : e.spawn = false) :
+    ∀ e' ∈ l₂, e'.who = e.who → e'.spawn = false := by
+  have h := okOrder_trace s₀ ops
+  rw [hsplit, okOrder_append] at h
+  have h2 := h.2.1
+  simp only [okOrder, Bool.and_eq_true, Bool.or_eq_true] at h2
+  rcases h2.1 with h3 | h3
+  · rw [he] at h3; cases h3
+  · intro e' he' hw
+    simp only [spawnFree, List.all_eq_true, Bool.not_eq_true', Bool.and_eq_false_iff,
+      beq_eq_false_iff_ne] at h3
+    rcases h3 e' he' with h4 | h4
+    · exact h4
+    · exact absurd hw h4
+
+/-- (bonus) no recipient is ever sent the same event twice, in any run; and the listener list never
+holds an actor twice (`monitor` is idempotent). -/
+theorem pid_never_reported_twice (ops : List PidRegistry.Op) :
+    (PidRegistry.trace PidRegistry.init ops).Nodup ∧ (PidRegistry.run PidRegistry.init ops).mons.Nodup :=
+  ⟨trace_nodup PidRegistry.inv_init ops, (PidRegistry.inv_run PidRegistry.inv_init ops).mons⟩
+
+/-- (bonus) an actor that exits is removed from the listener list by its own cleanup block. -/
+theorem pid_exiting_monitor_removed (ops : List PidRegistry.Op) (a : Nat)
+    (ha : alive (PidRegistry.run PidRegistry.init ops) a = true) :
+    a ∉ (PidRegistry.step (PidRegistry.run PidRegistry.init ops) (.exitBegin a)).mons := by
+  obtain ⟨x, hx, hp⟩ := alive_getA (PidRegistry.inv_run PidRegistry.inv_init ops) ha
+  simp [PidRegistry.step, hx, hp]
+
+/-- The run-time oracle of engine `pidmon` (`failingStep`: get_all_pids = live locals, where_is_pid
+agrees, no event about a remote or unknown actor, every live listener of the instant handles the event
+exactly once and nobody else handles anything, an exiting monitor leaves the list, remote creation is
+invisible) never fails on the model, whatever happened before. -/
+theorem pid_oracle_step (ops : List PidRegistry.Op) (op : PidRegistry.Op) :
+    failingStep (PidRegistry.view (PidRegistry.run PidRegistry.init ops)) op
+      (PidRegistry.view (PidRegistry.step (PidRegistry.run PidRegistry.init ops) op))
+      (delivered (PidRegistry.run PidRegistry.init ops) op) = [] :=
+  failingStep_nil (PidRegistry.inv_run PidRegistry.inv_init ops) op
+
+/-- The history oracle (`failingHist`: per recipient no `Spawn(a)` after `Terminate(a)`, nothing handled
+twice) never fails on the events the model's listeners handle. -/
+theorem pid_oracle_hist (ops : List PidRegistry.Op) :
+    failingHist (dtrace PidRegistry.init ops) = [] := by
+  have hsub := dtrace_sublist PidRegistry.init ops
+  have h1 : okOrderPer (dtrace PidRegistry.init ops) = true := by
+    simp only [okOrderPer, List.all_eq_true]
+    intro e _
+    exact okOrder_sublist (List.Sublist.trans List.filter_sublist hsub) (okOrder_trace _ ops)
+  have h2 : (dtrace PidRegistry.init ops).Nodup :=
+    List.Nodup.sublist hsub (trace_nodup PidRegistry.inv_init ops)
+  simp [failingHist, h1, h2]
+
+/-! ### Non-vacuity (tests, not theorems) -/
+
+/-- two monitors (one of them a remote-id actor), a third actor spawns and exits, monitor 1 exits
+(it is not told of its own termination, monitor 2 is), a late monitor sees only what follows -/
+example :
+    PidRegistry.trace PidRegistry.init
+      [.spawn 1, .remote 2, .monitor 1, .monitor 2, .monitor 1, .spawn 3, .exitBegin 3, .exitEnd 3,
+       .exitBegin 1, .spawn 4, .monitor 4, .exitBegin 2, .spawn 5, .exitBegin 4] =
+      [⟨1, true, 3⟩, ⟨2, true, 3⟩, ⟨1, false, 3⟩, ⟨2, false, 3⟩, ⟨2, false, 1⟩, ⟨2, true, 4⟩, ⟨4, true, 5⟩] := by
+  decide
+
+/-- hypotheses of `pid_spawn_reported_exactly` / `pid_terminate_reported_exactly` are satisfiable -/
+example : known (PidRegistry.run PidRegistry.init [.spawn 1, .monitor 1]) 3 = false ∧
+    getA (PidRegistry.run PidRegistry.init [.spawn 1, .monitor 1, .spawn 3]) 3 = some ⟨3, false, 0⟩ ∧
+    3 ∈ (PidRegistry.run PidRegistry.init [.spawn 1, .monitor 1, .spawn 3]).pids := by decide
+
+/-- what the code does with `monitor()` on an actor that has already exited: the entry stays for ever
+(nobody runs `demonitor` for it again) — its events are sent and silently lost -/
+example :
+    let s := PidRegistry.run PidRegistry.init [.spawn 0, .exitBegin 0, .exitEnd 0, .monitor 0, .spawn 1]
+    s.mons = [0] ∧ alive s 0 = false ∧
+    events (PidRegistry.run PidRegistry.init [.spawn 0, .exitBegin 0, .exitEnd 0, .monitor 0]) (.spawn 1)
+      = [⟨0, true, 1⟩] ∧
+    delivered (PidRegistry.run PidRegistry.init [.spawn 0, .exitBegin 0, .exitEnd 0, .monitor 0]) (.spawn 1) = [] := by
+  decide
+
+/-- the oracle does fail on wrong observations: an event to an actor that monitors only later, a
+missing event, an event about a remote actor, a pid table with a remote entry -/
+example :
+    let s := PidRegistry.run PidRegistry.init [.spawn 1, .remote 2, .monitor 1]
+    failingStep (PidRegistry.view s) (.spawn 3) (PidRegistry.view (PidRegistry.step s (.spawn 3)))
+        [⟨1, true, 3⟩, ⟨2, true, 3⟩] = ["pid-event-to-non-monitor-or-unexpected"] ∧
+    failingStep (PidRegistry.view s) (.spawn 3) (PidRegistry.view (PidRegistry.step s (.spawn 3))) []
+        = ["pid-lifecycle-event-missing-or-duplicated"] ∧
+    failingStep (PidRegistry.view s) (.getAll) (PidRegistry.view s) [⟨1, true, 2⟩]
+        = ["pid-event-for-remote-actor", "pid-event-to-non-monitor-or-unexpected"] ∧
+    failingStep (PidRegistry.view s) (.getAll) { PidRegistry.view s with pids := [1, 2] } []
+        = ["get-all-pids-not-live-locals", "where-is-pid-disagrees"] ∧
+    failingHist [⟨1, false, 3⟩, ⟨1, true, 3⟩] = ["terminate-before-spawn"] := by
+  decide
+
+end C10
+
 #print axioms C10.ok_reachable
 #print axioms C10.register_ok_iff_vacant
 #print axioms C10.register_dup_frame
@@ -489,3 +797,16 @@ end C10
 #print axioms C10.unregister_guarded_by_is_local
 #print axioms C10.constructor_order_matches_source
 #print axioms C10.pid_registry_guards_match_source
+#print axioms C10.pid_get_all_refines
+#print axioms C10.pid_where_is_agrees
+#print axioms C10.pid_remote_invisible
+#print axioms C10.pid_remote_exit_silent
+#print axioms C10.pid_nothing_for_remote
+#print axioms C10.pid_spawn_reported_exactly
+#print axioms C10.pid_terminate_reported_exactly
+#print axioms C10.pid_terminate_of_live_local
+#print axioms C10.pid_spawn_before_terminate
+#print axioms C10.pid_never_reported_twice
+#print axioms C10.pid_exiting_monitor_removed
+#print axioms C10.pid_oracle_step
+#print axioms C10.pid_oracle_hist
